@@ -68,7 +68,7 @@ theorem events_ok (cfg : Cfg) (pol : Policy) (fuel : Nat) (hist : List (Oid × O
 
 theorem judgeStep_nil {bb : Option Name} {P : List Obj} {w1 : World} {r : StepRec} (h : StepOK bb P w1 r) :
     judgeStep bb P r = [] := by
-  simp [judgeStep, clauses, h.nocrash, h.known, h.euid, h.uid, h.creation, h.noeuid, h.exportc, h.asked, h.bind]
+  simp [judgeStep, clauses, h.nocrash, h.known, h.euid, h.uid, h.creation, h.noeuid, h.exportc, h.asked, h.bind, h.fp]
 
 theorem judgeFrom_nil {bb : Option Name} :
     ∀ (trace : List StepRec) (P : List Obj) (i : Nat), TraceOK bb P trace → judgeFrom bb P i trace = [] := by
@@ -82,7 +82,7 @@ theorem judgeFrom_nil {bb : Option Name} :
 
 /-- **Top theorem.**  The specification oracle accepts the event trace of every history under every master policy:
     no clause of property C20 (euid, uid, creation, no-euid-no-creation, export preconditions, master asked, bind only
-    with the master's valid_bind approval, every object known and with a uid, no crash) is ever violated by the model. -/
+    with the master's valid_bind approval, geteuid(function) = the owner's euid, every object known and with a uid, no crash) is ever violated by the model. -/
 theorem model_satisfies_spec (cfg : Cfg) (pol : Policy) (fuel : Nat) (hist : List (Oid × Op)) :
     judgeEv cfg (events cfg pol fuel hist) = [] :=
   judgeFrom_nil _ _ 0 (events_ok cfg pol fuel hist)
